@@ -106,7 +106,7 @@ int __wrap_snprintf(char *s, size_t n, const char *fmt, ...)
 			} else if (nl == 1) {
 				long v = va_arg(aq, long);
 				memcpy(a, &v, sizeof(long));
-				putchar('l');
+				putchar(sizeof(long) == 8 ? 'q' : 'l');	/* keyed by size: "%lld" may be handed a long */
 				puthex(a, sizeof(long));
 			} else {
 				int v = va_arg(aq, int);
@@ -187,10 +187,10 @@ static int parse_args(char *save)
 	free_args();
 	while ((tok = strtok_r(NULL, " \n", &save)) != NULL && n < MAXARGS) {
 		switch (tok[0]) {
-		case 'i': slots[n] = (uint64_t)(int64_t)(int)strtoll(tok + 1, NULL, 10); break;
-		case 'l': slots[n] = (uint64_t)(long)strtoll(tok + 1, NULL, 10); break;
-		case 'q': slots[n] = (uint64_t)strtoll(tok + 1, NULL, 10); break;
-		case 'p': slots[n] = (uint64_t)strtoull(tok + 1, NULL, 10); break;
+		case 'i': slots[n] = (uint64_t)(int64_t)(int)strtoll(tok + 1, NULL, 0); break;
+		case 'l': slots[n] = (uint64_t)(long)strtoll(tok + 1, NULL, 0); break;
+		case 'q': slots[n] = (uint64_t)strtoll(tok + 1, NULL, 0); break;
+		case 'p': slots[n] = (uint64_t)strtoull(tok + 1, NULL, 0); break;
 		case 'd': slots[n] = (uint64_t)strtoull(tok + 1, NULL, 16); break;
 		case 's':
 			if (tok[1] == 'N') {
